@@ -79,7 +79,13 @@ func extract(msgs []*rwp.InboundMessage) []deliv {
 }
 
 // observe feeds the lines under one discipline; returns the STEP list (or a panic marker)
-func observe(disc string, lines []string) []Sx {
+func observe(disc string, lines []string) []Sx { return observeWith(disc, lines, nil) }
+
+// observeWith: after every step of the history a SECOND reader object parses the next companion
+// line and a separate batch call decodes the companion prefix (package-level state shared between
+// reader objects or between calls would show in the main history's deliveries)
+func observeWith(disc string, lines []string, companion []string) []Sx {
+	compReader := &rwl.ASCIIreader{}
 	steps := []Sx{}
 	var prev []deliv
 	var held []*rwp.InboundMessage
@@ -110,6 +116,14 @@ func observe(disc string, lines []string) []Sx {
 				cur = extract(held)
 			}
 		}()
+		if len(companion) > 0 {
+			func() {
+				defer func() { recover() }()
+				c := k % len(companion)
+				compReader.Parse(companion[c])
+				rwl.RawPanelASCIIstringsToInboundMessages(companion[:c+1])
+			}()
+		}
 		if panicked {
 			steps = append(steps, Sx(Sym("panic")))
 			continue
@@ -159,6 +173,10 @@ var discs = []string{"batch", "stream", "ser"}
 // one history under the three disciplines in one case line
 func hist3Case(lines []string) string {
 	return sxString(L(Sym("hist3"), linesSx(lines), observe("batch", lines), observe("stream", lines), observe("ser", lines)))
+}
+
+func hist3cCase(lines, companion []string) string {
+	return sxString(L(Sym("hist3c"), linesSx(lines), linesSx(companion), observeWith("batch", lines, companion), observeWith("stream", lines, companion), observeWith("ser", lines, companion)))
 }
 
 // ---------------------------------------------------------------- alphabet
@@ -547,6 +565,11 @@ func genC05(tier string, rng *Rng) {
 	}
 	for i := 0; i < nr; i++ {
 		h := randomHistory(rng, 50, i%3 == 2)
+		if i%4 == 1 { // with a companion reader / companion calls working on another history
+			out.WriteString(hist3cCase(h[:25], randomHistory(rng, 12, false)))
+			c05stats["random len 25 with a companion reader and companion batch calls (x3 disciplines)"]++
+			continue
+		}
 		out.WriteString(hist3Case(h))
 		c05stats[map[bool]string{false: "random near-valid len 50 (x3 disciplines)", true: "random with malformed lines len 50 (x3 disciplines)"}[i%3 == 2]]++
 	}
@@ -576,6 +599,10 @@ func replayC05(line string) {
 		out.WriteString(histCase(n.Kids[1].Atom, getLines(n.Kids[2])))
 	case "hist3":
 		out.WriteString(hist3Case(getLines(n.Kids[1])))
+	case "hist3c":
+		if len(n.Kids) >= 3 {
+			out.WriteString(hist3cCase(getLines(n.Kids[1]), getLines(n.Kids[2])))
+		}
 	case "clean":
 		if len(n.Kids) < 5 || len(n.Kids[2].Kids) != 7 {
 			return
